@@ -11,7 +11,7 @@ import (
 func init() {
 	register(&propDef{
 		ID:          "C11",
-		Explanation: "Decides, for templ.ComponentHandler (go/cfg dominance and reachability, object identity through go/types): R1 the buffered path renders into the pooled byte buffer, never into the ResponseWriter; R2 every effect on the ResponseWriter (Header, WriteHeader, Write, http.Error, delegation to the error handler) is dominated by the Render call; R3 the effects inside the `err != nil` branch are the only ones reachable when rendering failed — that branch returns on every path and no success effect is reachable from an error effect; R4 the success body is Bytes() of that same buffer, written exactly once, after the status; R5 ServeHTTP takes the buffered path unless StreamResponse is set; the pooled buffer is released only by a defer (no use after release). R6 no function of templ or templ/runtime uses the memory of a pooled buffer after the buffer went back to the pool (a slice from Bytes() returned past a deferred release, or used after a direct release): the response body would be overwritten by another request's render. R7 (= C10.R6) every object that goes into the buffer pools is reset or freshly empty, so a response never starts with bytes of an earlier (failed) render. R8 the ErrorHandler field is assigned the option's parameter itself (or a wrapper whose every return calls it). NOT decided: what a configured error handler itself writes.",
+		Explanation: "Decides, for templ.ComponentHandler (go/cfg dominance and reachability, object identity through go/types): R1 the buffered path renders into the pooled byte buffer, never into the ResponseWriter; R2 every effect on the ResponseWriter (Header, WriteHeader, Write, http.Error, delegation to the error handler) is dominated by the Render call; R3 the effects inside the `err != nil` branch are the only ones reachable when rendering failed — that branch returns on every path and no success effect is reachable from an error effect; R4 the success body is Bytes() of that same buffer, written exactly once, after the status; R5 ServeHTTP takes the buffered path unless StreamResponse is set; the pooled buffer is released only by a defer (no use after release). R6 no function of templ or templ/runtime uses the memory of a pooled buffer after the buffer went back to the pool (a slice from Bytes() returned past a deferred release, or used after a direct release): the response body would be overwritten by another request's render. R7 (= C10.R6) every object that goes into the buffer pools is reset or freshly empty, so a response never starts with bytes of an earlier (failed) render. R8 the ErrorHandler field is assigned the option's parameter itself (or a wrapper whose every return calls it). R9 inside package templ the StreamResponse flag is written only by an option dedicated to it: unconditionally, in a function that sets no other handler field, and no constructor presets it. NOT decided: what a configured error handler itself writes.",
 		Assumptions: []string{"Component.Render writes only to the writer it is given"},
 		Trusted:     []string{"go/types", "x/tools go/packages, go/cfg"},
 		Run:         runC11,
@@ -443,6 +443,7 @@ func runC11(c *Ctx) {
 	}
 	c.floor("C11.R3", 4)
 	pooledBufferLifetime(c, "C11.R6")
+	streamingFlagSetOnlyByItsOption(c, "C11.R9")
 	poolDiscipline(c, "C11.R7")
 	errorHandlerStoredAsGiven(c, "C11.R8")
 }
@@ -535,5 +536,129 @@ func errorHandlerStoredAsGiven(c *Ctx, rule string) {
 		})
 	}
 	c.count("error_handler_assignments", n)
+	c.floor(rule, 1)
+}
+
+// streamingFlagSetOnlyByItsOption: C11.R9 — "buffered unless streaming was asked for" also depends on who can set the
+// flag. Every write of the exported StreamResponse field inside package templ must be the unconditional body of an
+// option dedicated to it: not under a condition (on a content type, a status, the component…) and not next to writes
+// of other handler fields. A second writer makes the all-or-nothing handler stream for some configuration the user did
+// not choose streaming for, where a failing render then sends 200 + a partial document + the error text.
+func streamingFlagSetOnlyByItsOption(c *Ctx, rule string) {
+	p := c.pkg(".")
+	info := p.TypesInfo
+	tn, _ := p.Types.Scope().Lookup("ComponentHandler").(*types.TypeName)
+	if tn == nil {
+		c.viol(rule, "anchor-lost:ComponentHandler", "", "templ.ComponentHandler (exported) not found")
+		return
+	}
+	st, _ := tn.Type().Underlying().(*types.Struct)
+	var flag *types.Var
+	for i := 0; st != nil && i < st.NumFields(); i++ {
+		if st.Field(i).Name() == "StreamResponse" {
+			flag = st.Field(i)
+		}
+	}
+	if flag == nil {
+		c.viol(rule, "anchor-lost:ComponentHandler.StreamResponse", "", "the exported field StreamResponse was not found")
+		return
+	}
+	isField := func(e ast.Expr) *types.Var {
+		se, ok := ast.Unparen(e).(*ast.SelectorExpr)
+		if !ok {
+			return nil
+		}
+		sel, ok := info.Selections[se]
+		if !ok || sel.Kind() != types.FieldVal {
+			return nil
+		}
+		v, _ := sel.Obj().(*types.Var)
+		for i := 0; v != nil && i < st.NumFields(); i++ {
+			if st.Field(i) == v {
+				return v
+			}
+		}
+		return nil
+	}
+	n := 0
+	for _, fd := range allFuncDecls(p) {
+		if fd.Body == nil {
+			continue
+		}
+		// innermost function bodies
+		var bodies []*ast.BlockStmt
+		bodies = append(bodies, fd.Body)
+		ast.Inspect(fd.Body, func(x ast.Node) bool {
+			if fl, ok := x.(*ast.FuncLit); ok {
+				bodies = append(bodies, fl.Body)
+			}
+			return true
+		})
+		for _, body := range bodies {
+			var flagWrites []*ast.AssignStmt
+			others := []string{}
+			var walk func(n ast.Node, nested bool)
+			nestedOf := map[*ast.AssignStmt]bool{}
+			walk = func(n ast.Node, nested bool) {
+				ast.Inspect(n, func(x ast.Node) bool {
+					switch s := x.(type) {
+					case *ast.FuncLit:
+						return s.Body == body
+					case *ast.IfStmt, *ast.SwitchStmt, *ast.TypeSwitchStmt, *ast.ForStmt, *ast.RangeStmt, *ast.SelectStmt:
+						if x != n {
+							walk(x, true)
+							return false
+						}
+					case *ast.AssignStmt:
+						for _, l := range s.Lhs {
+							if v := isField(l); v != nil {
+								if v == flag {
+									flagWrites = append(flagWrites, s)
+									nestedOf[s] = nested
+								} else {
+									others = append(others, v.Name())
+								}
+							}
+						}
+					}
+					return true
+				})
+			}
+			walk(body, false)
+			for i, w := range flagWrites {
+				n++
+				why := ""
+				if nestedOf[w] {
+					why = "the write is conditional"
+				} else if len(others) > 0 {
+					why = "the same function also sets " + strings.Join(others, ", ")
+				}
+				c.check(why == "", rule, fmt.Sprintf("%s|sets StreamResponse#%d|dedicated-unconditional-option", funcKey(p, fd), i+1), c.pos(w.Pos()), "the unconditional body of an option that sets nothing else",
+					fmt.Sprintf("%s sets StreamResponse, but %s: the handler then streams for a configuration in which the user did not ask for streaming, and a render that fails after the first chunk sends the success status, a partial document and the error text instead of the error response alone", fd.Name.Name, why))
+			}
+		}
+		// composite literals of the handler that preset the flag
+		ast.Inspect(fd.Body, func(x ast.Node) bool {
+			cl, ok := x.(*ast.CompositeLit)
+			if !ok {
+				return true
+			}
+			if t := info.TypeOf(cl); t == nil || !types.Identical(t, tn.Type()) {
+				return true
+			}
+			for _, el := range cl.Elts {
+				if kv, ok := el.(*ast.KeyValueExpr); ok {
+					if id, ok := kv.Key.(*ast.Ident); ok && id.Name == "StreamResponse" {
+						n++
+						tv := info.Types[kv.Value]
+						c.check(tv.Value != nil && tv.Value.String() == "false", rule, funcKey(p, fd)+"|presets StreamResponse", c.pos(kv.Pos()), "preset to false",
+							fd.Name.Name+" constructs a handler with StreamResponse preset to something other than false: buffering is no longer the default")
+					}
+				}
+			}
+			return true
+		})
+	}
+	c.count("stream_flag_writes", n)
 	c.floor(rule, 1)
 }
